@@ -22,7 +22,7 @@ COMMON = ["event_callback", "persistence", "persistence_file", "protocol_version
 OWN = {"serial": ["baud", "timeout", "reconnect_timeout"], "tcp": ["port", "timeout", "reconnect_timeout"],
        "mqtt": ["in_prefix", "out_prefix", "retain"]}
 VALUES = {"baud": [57600, 9600], "timeout": [2.5, 0.5], "reconnect_timeout": [7.0, 30.0], "port": [5004, 1883],
-          "persistence": [True, False], "persistence_file": ["/nonexistent/dir/net.json", "other.pickle"],
+          "persistence": [True, False], "persistence_file": ["cfgdir/net.json", "other.pickle"],
           "protocol_version": ["2.2", "1.5", "2.0.0"], "in_prefix": ["gw-in", "a/b"], "out_prefix": ["gw-out", ""],
           "retain": [False, True]}
 
@@ -83,6 +83,21 @@ def observe_config(cls, given):
             v = str(gw.server_address[1])
         elif o == "persistence":
             v = str(gw.tasks.persistence is not None)
+            if gw.tasks.persistence is not None:
+                # the option must WORK: a change made after the first save reaches the file with the next save
+                try:
+                    from mysensors.persistence import Persistence
+                    pers = gw.tasks.persistence
+                    gw.logic("1;255;0;0;17;1.4\n")
+                    pers.save_sensors()
+                    gw.logic("1;255;3;0;0;55\n")
+                    pers.save_sensors()
+                    back = {}
+                    Persistence(back, lambda f: f, persistence_file=pers.persistence_file).safe_load_sensors()
+                    if not (1 in back and back[1].battery_level == 55):
+                        v = "broken: update after the first save was not persisted"
+                except Exception as exc:  # pylint: disable=broad-except
+                    v = "broken: " + type(exc).__name__
         elif o == "persistence_file":
             v = gw.tasks.persistence.persistence_file if gw.tasks.persistence is not None else "n/a"
         elif o == "in_prefix":
@@ -178,6 +193,8 @@ def run(tier):
     rep = common.Report(PID, tier)
     wd = common.workdir(PID)
     rng = random.Random(common.seed() + 18)
+    os.makedirs(os.path.join(wd, "cwd", "cfgdir"), exist_ok=True)
+    os.chdir(os.path.join(wd, "cwd"))          # relative persistence files (incl. the default) land in scratch
     C = []
     errs = []
     for cls in CLASSES:
